@@ -468,3 +468,96 @@ def none_facts(node, stop=None):
             positive = isinstance(t.ops[0], ast.Is) == pol
             out.add(ast.unparse(t.left).replace(" ", "") + ("isNone" if positive else "isnotNone"))
     return out
+
+
+def _returns_to_assign(stmts, target):
+    """Statement list in which `return X` becomes `target = X` and guard clauses become if/else chains (exact for bodies
+    made of if / assignment / raise / assert / return only).  None if the body has another shape."""
+    out = []
+    for i, s_ in enumerate(stmts):
+        if isinstance(s_, ast.Return):
+            if s_.value is None:
+                return None
+            if not (isinstance(s_.value, ast.Name) and s_.value.id == target):
+                a = ast.Assign(targets=[ast.Name(id=target, ctx=ast.Store())], value=s_.value)
+                ast.copy_location(a, s_)
+                ast.fix_missing_locations(a)
+                out.append(a)
+            return out
+        if isinstance(s_, ast.If):
+            body = _returns_to_assign(s_.body, target)
+            rest = stmts[i + 1:]
+            if body is None:
+                return None
+            if terminates(s_.body) and not s_.orelse:
+                orelse = _returns_to_assign(rest, target)
+                if orelse is None:
+                    return None
+                new = ast.If(test=s_.test, body=body or [ast.Pass()], orelse=orelse)
+                ast.copy_location(new, s_)
+                out.append(new)
+                return out
+            orelse = _returns_to_assign(s_.orelse, target) if s_.orelse else []
+            if orelse is None:
+                return None
+            new = ast.If(test=s_.test, body=body or [ast.Pass()], orelse=orelse)
+            ast.copy_location(new, s_)
+            out.append(new)
+            if terminates(s_.body) and s_.orelse and terminates(s_.orelse):
+                return out
+            continue
+        if isinstance(s_, (ast.Assign, ast.AnnAssign, ast.AugAssign, ast.Raise, ast.Assert, ast.Pass)) or \
+                (isinstance(s_, ast.Expr) and isinstance(s_.value, ast.Constant)):
+            out.append(s_)
+            continue
+        return None
+    return out
+
+
+def inline_value_helpers(model, module, fn, names=None):
+    """A copy of function node `fn` in which a statement `X = h(a, b, ...)` - h a module-level project function whose body is
+    made of if / assignment / raise / return only - is replaced by h's body: parameters substituted by the arguments,
+    `return V` turned into `X = V`, guard clauses turned into if/else chains, and the helper's local that is returned renamed
+    to X.  Lets rules written against an inline if/elif chain read the same chain after it was extracted into a function."""
+    changed = False
+
+    def expand(stmts):
+        nonlocal changed
+        out = []
+        for s_ in stmts:
+            if isinstance(s_, ast.Assign) and len(s_.targets) == 1 and isinstance(s_.targets[0], ast.Name) and isinstance(s_.value, ast.Call) \
+                    and isinstance(s_.value.func, ast.Name) and not s_.value.keywords and (names is None or s_.targets[0].id in names):
+                r_ = model.resolve_expr(module, s_.value.func)
+                h = model.functions.get(r_[0][1]) if r_ and r_[0] and r_[0][0] == "func" else None
+                if h is not None and h.node is not fn and h.cls is None:
+                    ps = func_params(h.node)
+                    if len(ps) == len(s_.value.args):
+                        body = [b for b in h.node.body if not (isinstance(b, ast.Expr) and isinstance(b.value, ast.Constant))]
+                        target = s_.targets[0].id
+                        env = dict(zip(ps, s_.value.args))
+                        # the helper's own local that is returned takes the caller's name
+                        assigned_ = {t.id for a_ in walk_no_nested(h.node) if isinstance(a_, (ast.Assign, ast.AnnAssign))
+                                     for t in (a_.targets if isinstance(a_, ast.Assign) else [a_.target]) if isinstance(t, ast.Name)}
+                        rets = {r.value.id for r in walk_no_nested(h.node) if isinstance(r, ast.Return) and isinstance(r.value, ast.Name)
+                                and r.value.id not in ps and r.value.id in assigned_}
+                        for nm in rets:
+                            env[nm] = ast.Name(id=target, ctx=ast.Load())
+                        cl = clone(body, env)
+                        # stores to a renamed local: clone() only substitutes loads by expression; fix Store contexts
+                        for x in [y for b in cl for y in ast.walk(b)]:
+                            if isinstance(x, ast.Name) and x.id in rets:
+                                x.id = target
+                        conv = _returns_to_assign(cl, target)
+                        if conv is not None:
+                            out.extend(conv)
+                            changed = True
+                            continue
+            new = clone(s_)
+            for fld in ("body", "orelse", "finalbody"):
+                if isinstance(getattr(new, fld, None), list) and not isinstance(new, (ast.FunctionDef, ast.ClassDef)):
+                    setattr(new, fld, expand(getattr(s_, fld)))
+            out.append(new)
+        return out
+    new = clone(fn)
+    new.body = expand(fn.body)
+    return _set_parents(new) if changed else fn
